@@ -1,6 +1,7 @@
 import XdsVerif.Proofs.Seq
 import XdsVerif.Proofs.Interest
 import XdsVerif.Properties.C01
+import XdsVerif.Proofs.Sys
 /-!
 # C03 — requests always carry exactly the current interest set of their type
 
@@ -92,6 +93,45 @@ theorem queue_never_stale (cfg : Cfg) (ops : List Op) (s : St) (h : run cfg init
   rcases hI.qi with qc | qi
   · rw [hc] at qc; cases qc
   · exact qi rt ns hl
+
+/-! ### with any number of concurrent lookups (`Model/Sys.lean`)
+
+`Sys.run_seq`: a schedule of the composed system whose response handlers run their lock sections back to back is a
+history of the state machine above, whatever the lookup threads do in between — each lookup's `Watch` call happens
+inside its `m.mu` section and is one `subscribe` of that history. -/
+
+/-- quiescence, concurrent form: lookups (hits, misses, repeated, concurrent for the same and for different names,
+timing out or being answered), evictions, responses, reconnects in any interleaving -/
+theorem quiescent_last_request_concurrent (cfg : Cfg) (V : Conc.Variant) (T : RType) (tn : Nat → Name)
+    (ls : List Sys.Lbl) (s : Sys.St) (e : Sys.Emit) (ha : Sys.atomic ls = true)
+    (h : Sys.run cfg V T tn Sys.init ls = some (s, e))
+    (hlive : ¬ Stale s.seq) (hq : s.seq.queue = []) (rt : RType) (ws : List Name) (hw : s.seq.watched rt = some ws) :
+    lastNames rt (onStream s.seq.recvStream s.seq.wire) = some ws :=
+  quiescent_last_request cfg e.seq s.seq (Sys.run_seq cfg V T tn ls Sys.init s e rfl ha h).1 hlive hq rt ws hw
+
+/-- the interest set under concurrency: the most recent subscribe (a lookup that created the notifier) or eviction
+of the name decides, exactly as in the sequential history the schedule performed -/
+theorem interest_is_history_concurrent (cfg : Cfg) (V : Conc.Variant) (T : RType) (tn : Nat → Name)
+    (ls : List Sys.Lbl) (s : Sys.St) (e : Sys.Emit) (ha : Sys.atomic ls = true)
+    (h : Sys.run cfg V T tn Sys.init ls = some (s, e)) (rt : RType) (n : Name) :
+    ((s.seq.watched rt).getD []).contains n = subscribedAt e.seq.reverse rt n :=
+  interest_is_history cfg e.seq s.seq (Sys.run_seq cfg V T tn ls Sys.init s e rfl ha h).1 rt n
+
+/-- only the lookup that creates the notifier subscribes: a lookup that joins an existing notifier, is answered from
+the cache, times out or is cancelled sends nothing -/
+theorem only_notifier_creation_subscribes (cfg : Cfg) (V : Conc.Variant) (T : RType) (tn : Nat → Name)
+    (s s' : Sys.St) (i : Nat) (e : Sys.Emit) (h : Sys.step cfg V T tn s (.getRegister i) = some (s', e)) :
+    (e.seq = [] ∧ s'.seq = s.seq ∧ s'.conc.nextNf = s.conc.nextNf) ∨
+    (e.seq = [.subscribe T (tn i)] ∧ s'.conc.nextNf ≠ s.conc.nextNf) := by
+  simp only [Sys.step] at h
+  split at h
+  · cases h
+  · split at h
+    · rename_i hnf; cases h; exact Or.inl ⟨rfl, rfl, hnf⟩
+    · rename_i hnf
+      split at h
+      · cases h; exact Or.inr ⟨rfl, hnf⟩
+      · cases h
 
 /-! non-vacuity: three changes of one interest set, then quiescence -/
 example : (run C01.exCfg init
